@@ -95,6 +95,29 @@ type decRecLong struct {
 	F float64 `shp:"temperature"`
 }
 
+// a record type in which the Go name of one field is the tag of another
+type recPointCross struct {
+	geom.Point
+	I     int     `shp:"ival"`
+	Name  string  `shp:"label"`
+	Label string  `shp:"name"`
+	F     float64 `shp:"fval"`
+}
+type decRecCross struct {
+	G     geom.Geom
+	I     int     `shp:"IVAL"`
+	Name  string  `shp:"label"`
+	Label string  `shp:"name"`
+	F     float64 `shp:"fval"`
+}
+
+func crossLabel(s string) string {
+	if len(s) > 40 {
+		s = s[:40]
+	}
+	return "L" + strings.TrimSpace(s)
+}
+
 // decode targets: tags in another letter case, geometry as interface
 type decRec struct {
 	G geom.Geom
@@ -206,7 +229,7 @@ func roundTrip(kind string, recs []rec, api string) {
 		}
 	}()
 	// ---- write
-	if api == "struct" || api == "struct-string-last" || api == "struct-long-names" {
+	if api == "struct" || api == "struct-string-last" || api == "struct-long-names" || api == "struct-cross-names" {
 		var arch interface{}
 		switch kind {
 		case "Point":
@@ -215,6 +238,8 @@ func roundTrip(kind string, recs []rec, api string) {
 				arch = recPointSL{}
 			} else if api == "struct-long-names" {
 				arch = recPointLong{}
+			} else if api == "struct-cross-names" {
+				arch = recPointCross{}
 			}
 		case "MultiPoint":
 			arch = recMultiPoint{}
@@ -241,6 +266,8 @@ func roundTrip(kind string, recs []rec, api string) {
 					d = recPointSL{t, r.a.F, r.a.I, r.a.S}
 				} else if api == "struct-long-names" {
 					d = recPointLong{t, r.a.I, r.a.S, r.a.F}
+				} else if api == "struct-cross-names" {
+					d = recPointCross{t, r.a.I, r.a.S, crossLabel(r.a.S), r.a.F}
 				}
 			case geom.MultiPoint:
 				d = recMultiPoint{t, r.a.I, r.a.S, r.a.F}
@@ -307,7 +334,17 @@ func roundTrip(kind string, recs []rec, api string) {
 		var gs string
 		var gf float64
 		more := false
-		if api == "struct-long-names" {
+		if api == "struct-cross-names" {
+			var r decRecCross
+			if p := try(func() { more = d.DecodeRow(&r) }); p != "" {
+				rep.Violation(fmt.Sprintf("struct-cross-names|%s|DecodeRow-panic", kind), detail(n, p))
+				return
+			}
+			g, gi, gs, gf = r.G, r.I, r.Name, r.F
+			if more && n < len(recs) && r.Label != crossLabel(recs[n].a.S) {
+				rep.Violation(fmt.Sprintf("struct-cross-names|%s|string-differs", kind), detail(n, fmt.Sprintf("field Label (tag name) read %q, written %q; field Name (tag label) read %q", r.Label, crossLabel(recs[n].a.S), r.Name)))
+			}
+		} else if api == "struct-long-names" {
 			var r decRecLong
 			if p := try(func() { more = d.DecodeRow(&r) }); p != "" {
 				rep.Violation(fmt.Sprintf("struct-long-names|%s|DecodeRow-panic", kind), detail(n, p))
@@ -396,7 +433,7 @@ func main() {
 		return
 	}
 	rep = report.New("C16", tier, "model_checking")
-	rep.Rule = "E1: for each of Point, MultiPoint, LineString, MultiLineString, Polygon, *Bounds: every shape with 1..3 parts/rings x 1..3 vertices (rings closed and unclosed, both windings by rotation of the pattern list, every fourth rotation with a repeated consecutive vertex in every part) with coordinates from 19 finite float64 patterns, as single records, ordered pairs and triples of a reduced shape list, the empty file, files of 100 records and records with parts of up to 300 vertices / 40 parts; attributes int {0,-1,+-999999999,9999999999,42}, string {empty, 1 byte, 50 bytes, UTF-8, inner spaces, leading/trailing space, three byte strings that are not valid UTF-8}, float {0,-1.5,1/3,1e10,123456789.1234567891,-1e-10}; multi-line strings also with empty parts after the first; the struct API (tags/names in different letter case between writer and reader; for points also a record type whose last field is the string), the field API, both with attribute names of 11 bytes too, and the field API with geometry-only reads (no field names) on every other record. the struct and field APIs again with the written geometries cut from flat vertex buffers (not written to). Oracle: same number and order of records, every returned geometry and attribute map still intact after the last row, bit-identical coordinates part by part (unclosed rings closed, boxes as 5-vertex rectangles), ints equal, strings equal, floats within 1e-10. Non-trivial = files with >= 2 records or >= 2 parts."
+	rep.Rule = "E1: for each of Point, MultiPoint, LineString, MultiLineString, Polygon, *Bounds: every shape with 1..3 parts/rings x 1..3 vertices (rings closed, closed with the closing vertex twice, and unclosed, both windings by rotation of the pattern list, every fourth rotation with a repeated consecutive vertex in every part) with coordinates from 19 finite float64 patterns, as single records, ordered pairs and triples of a reduced shape list, the empty file, files of 100 records and records with parts of up to 300 vertices / 40 parts; attributes int {0,-1,+-999999999,9999999999,42}, string {empty, 1 byte, 50 bytes, UTF-8, inner spaces, leading/trailing space, three byte strings that are not valid UTF-8}, float {0,-1.5,1/3,1e10,123456789.1234567891,-1e-10}; multi-line strings also with empty parts after the first; the struct API (tags/names in different letter case between writer and reader; for points also a record type whose last field is the string, and one in which the Go name of a field is the tag of another), the field API, both with attribute names of 11 bytes too, and the field API with geometry-only reads (no field names) on every other record. the struct and field APIs again with the written geometries cut from flat vertex buffers (not written to). Oracle: same number and order of records, every returned geometry and attribute map still intact after the last row, bit-identical coordinates part by part (unclosed rings closed, boxes as 5-vertex rectangles), ints equal, strings equal, floats within 1e-10. Non-trivial = files with >= 2 records or >= 2 parts."
 	tmpRoot = "/dev/shm"
 	if st, err := os.Stat(tmpRoot); err != nil || !st.IsDir() {
 		tmpRoot = os.TempDir()
@@ -480,10 +517,14 @@ func main() {
 				g = &geom.Bounds{Min: geom.Point{X: math.Min(b.Min.X, b.Max.X), Y: math.Min(b.Min.Y, b.Max.Y)}, Max: geom.Point{X: math.Max(b.Min.X, b.Max.X), Y: math.Max(b.Min.Y, b.Max.Y)}}
 			}
 			if p, ok := g.(geom.Polygon); ok && rot%2 == 1 {
-				// closed spelling for odd rotations
+				// closed spelling for odd rotations; for every third of them the
+				// closing vertex twice (a legal repeated vertex at the end)
 				for i := range p {
 					if len(p[i]) > 0 {
 						p[i] = append(p[i], p[i][0])
+						if rot%3 == 0 {
+							p[i] = append(p[i], p[i][0])
+						}
 					}
 				}
 			}
@@ -491,7 +532,7 @@ func main() {
 		}
 		apis := []string{"struct", "fields", "fields-mixed", "struct-flat", "fields-flat", "fields-long-names"}
 		if kind == "Point" {
-			apis = append(apis, "struct-long-names")
+			apis = append(apis, "struct-long-names", "struct-cross-names")
 		}
 		if kind == "Point" {
 			apis = append(apis, "struct-string-last")
